@@ -7,18 +7,36 @@ seeds = {}
 for p in glob.glob(os.path.join(root, 'seeded', '*', 'meta.json')):
     m = json.load(open(p))
     seeds.setdefault(m['property'], []).append((m['id'], m['check_result'].split(':')[0]))
-print('| id | obligations (all discharged) | quick-run cases / non-trivial | `fix:` commits in /repo | known findings | seeded changes (result) |')
-print('|---|---|---|---|---|---|')
+def breakdown(pid):
+    """universally quantified theorems / witnesses (names with refuted, or statements that begin with exists or a negation) / examples of Props/<pid>.v"""
+    try:
+        text = open(os.path.join(root, 'coq', 'Props', pid + '.v')).read()
+    except OSError:
+        return ''
+    th = wit = ex = 0
+    for m in re.finditer(r'^(Theorem|Example|Lemma)\s+(\w+)\s*:?\s*([^\n]*)', text, flags=re.M):
+        kind, name, head = m.groups()
+        if kind == 'Example' or 'nonvacuous' in name:
+            ex += 1
+        elif 'refuted' in name or head.lstrip().startswith(('exists', '~')):
+            wit += 1
+        else:
+            th += 1
+    return '%d + %d + %d' % (th, wit, ex)
+
+
+print('| id | obligations (all discharged) | theorems + witnesses + examples | quick-run cases / non-trivial | `fix:` commits in /repo | known findings | seeded changes (result) |')
+print('|---|---|---|---|---|---|---|')
 for i in range(1, 21):
     pid = 'C%02d' % i
     ev = os.path.join(root, 'evidence', pid + '.json')
     if not os.path.exists(ev):
-        print('| %s | not built | | | | |' % pid)
+        print('| %s | not built | | | | | |' % pid)
         continue
     e = json.load(open(ev))
     c = e['coverage']
     fixed = [re.match(r'fixed: property=%s (\S+)' % pid, l).group(1) for l in kf if re.match(r'fixed: property=%s ' % pid, l)]
     known = [re.match(r'known: property=%s key=(\S+)' % pid, l).group(1) for l in kf if re.match(r'known: property=%s ' % pid, l)]
     sd = ', '.join('%s (%s)' % s for s in sorted(seeds.get(pid, [])))
-    print('| %s | %s/%s | %s / %s | %s | %s | %s |' % (pid, c.get('discharged'), c.get('obligations'), c.get('evaluations'), c.get('distinct_nontrivial'),
+    print('| %s | %s/%s | %s | %s / %s | %s | %s | %s |' % (pid, c.get('discharged'), c.get('obligations'), breakdown(pid), c.get('evaluations'), c.get('distinct_nontrivial'),
                                                 ' '.join(fixed) or '—', ', '.join(known) or '—', sd or '—'))
